@@ -242,7 +242,7 @@ def stanagCodec : Codec :=
     eq := fun a b => .ok (STANAG.eq a b) }
 
 /-! ### helper functions -/
-def floatArg (v : Val) : Option Rat := v.nat?.bind F64.ofBits
+def floatArg (v : Val) : Option Rat := v.nat?.map Acra.Py.Float.ofBits
 
 def mpegFuncs : List Func := [
   { name := "crc32mpeg2", run := fun vs => match vs with
@@ -252,26 +252,16 @@ def mpegFuncs : List Func := [
       | [.bytes b] => some (.ok (.ofNat (checksum_stanag b)))
       | _ => none },
   { name := "pts_to_ts", run := fun vs => match vs with
-      | [v] => v.nat?.map fun n => .ok (.ofNat (F64.toBits (pts_to_ts F64.rne n)))
+      | [v] => v.nat?.map fun n => .ok (.ofNat (Acra.Py.Float.toBits (pts_to_ts Acra.Py.Float.rne n)))
       | _ => none },
   { name := "ts_to_pts", run := fun vs => match vs with
-      | [v] => (floatArg v).map fun q => .ok (.ofNat (ts_to_pts F64.rne q))
+      | [v] => (floatArg v).map fun q => .ok (.ofNat (ts_to_pts Acra.Py.Float.rne q))
       | _ => none },
   { name := "ts_to_buf", run := fun vs => match vs with
-      | [v] => (floatArg v).map fun q => (ts_to_buf F64.rne q).map Val.bytes
+      | [v] => (floatArg v).map fun q => (ts_to_buf Acra.Py.Float.rne q).map Val.bytes
       | _ => none },
   { name := "buf_to_ts", run := fun vs => match vs with
-      | [.bytes b] => some ((buf_to_ts F64.rne b).map fun q => .ofNat (F64.toBits q))
-      | _ => none },
-  -- the float model on its own: nearest binary64 to n/d, and float multiplication by 90e3
-  { name := "f64.div", run := fun vs => match natArgs vs with
-      | some [n, d] => if d = 0 then none else some (.ok (.ofNat (F64.toBits (F64.rne (mkRat n d)))))
-      | _ => none },
-  { name := "f64.mul90k", run := fun vs => match vs with
-      | [v] => (floatArg v).map fun q => .ok (.ofNat (F64.toBits (F64.rne (q * 90000))))
-      | _ => none },
-  { name := "f64.round", run := fun vs => match vs with
-      | [v] => (floatArg v).map fun q => .ok (.int (F64.roundHE q))
+      | [.bytes b] => some ((buf_to_ts Acra.Py.Float.rne b).map fun q => .ofNat (Acra.Py.Float.toBits q))
       | _ => none }
 ]
 
